@@ -202,6 +202,9 @@ pub struct Burn {
 
 pub struct Mon {
     pub cfg: MonCfg,
+    /// every address a nested frame of the current transaction called, created or named as a
+    /// self-destruct beneficiary (ground truth for "could the program move ether to X?")
+    pub frame_targets: std::collections::BTreeSet<Address>,
     pub violations: Vec<MonViolation>,
     open: Vec<Open>,
     frames: Vec<FrameState>,
@@ -252,6 +255,7 @@ impl Mon {
         let is_cancun = cfg.is_cancun;
         Mon {
             cfg,
+            frame_targets: Default::default(),
             violations: vec![],
             open: vec![],
             frames: vec![],
@@ -307,6 +311,7 @@ impl Mon {
         self.burns.clear();
         self.sd_completed.clear();
         self.sd_notified.clear();
+        self.frame_targets.clear();
     }
     /// call after every transaction; `errored` = transact returned Err (frames may legitimately be
     /// left open by an aborted execution)
@@ -357,6 +362,12 @@ impl Mon {
             }
         }
         let snap = if self.cfg.snapshots { Some(project(&ctx.journaled_state)) } else { None };
+        if !self.open.is_empty() {
+            if let Kind::Call(c) = &kind {
+                self.frame_targets.insert(c.target_address);
+                self.frame_targets.insert(c.bytecode_address);
+            }
+        }
         let created_addr = match &kind {
             Kind::Call(_) => None,
             Kind::Create(c) => {
@@ -365,6 +376,9 @@ impl Mon {
             }
             Kind::EofCreate(c) => c.kind.created_address().copied(),
         };
+        if let Some(a) = created_addr {
+            self.frame_targets.insert(a);
+        }
         self.open.push(Open { kind, depth, snap, static_root, got_interp: false, created_addr });
     }
 
@@ -686,6 +700,7 @@ impl<DB: Database> Inspector<DB> for Mon {
         self.sd_last_result = None;
         if let Some(exp) = self.step_sd_expected.take() {
             let completed = res == InstructionResult::SelfDestruct;
+            self.frame_targets.insert(exp.target);
             if completed {
                 self.sd_completed.push(exp.clone());
                 if exp.target == exp.contract && !self.step_sd_self_cancun_noop {
